@@ -8,6 +8,7 @@ import (
 	"fmt"
 	"net"
 	"os"
+	"os/user"
 	"path/filepath"
 	"strings"
 	"syscall"
@@ -222,7 +223,8 @@ func TestVerif_ModesFS(t *testing.T) {
 			dir = "/d"
 			s.v.addDir("/d")
 			for i, typ := range []string{"reg", "dir", "symlink", "fifo", "socket", "chardev", "blockdev"} {
-				n := &vnode{name: typ, data: make([]byte, 10+i), mode: buildMode(typ, 0o640+i, i%2 == 0, i%3 == 0, i%2 == 1), mtime: fixedTime}
+				n := &vnode{name: typ, data: make([]byte, 10+i), mode: buildMode(typ, 0o640+i, i%2 == 0, i%3 == 0, i%2 == 1), mtime: fixedTime,
+					uid: uint32(4000 + i), gid: uint32(2000 + i), own: i % 4}
 				s.v.mu.Lock()
 				s.v.nodes["/d/"+typ] = n
 				s.v.mu.Unlock()
@@ -246,7 +248,31 @@ func TestVerif_ModesFS(t *testing.T) {
 				if len(fields) > 0 {
 					str = fields[0]
 				}
-				tr.emit("LongName", kv{"server": kind, "name": hexs([]byte(n.Name)), "w": int(n.A.Perm & 0xffff), "str": str, "sizeok": sizeok, "nameok": nameok})
+				// the owner and group columns (numeric without a name lookup) against the structured uid / gid, when the entry carries them
+				ownerok := true
+				if n.A.Flags&2 != 0 && len(fields) >= 4 {
+					// the os-backed server prints names where the ids resolve (documented: it looks them up like ls does)
+					un, gn := fmt.Sprint(n.A.UID), fmt.Sprint(n.A.GID)
+					if u, err := user.LookupId(un); err == nil && fields[2] == u.Username {
+						un = u.Username
+					}
+					if g, err := user.LookupGroupId(gn); err == nil && fields[3] == g.Name {
+						gn = g.Name
+					}
+					ownerok = fields[2] == un && fields[3] == gn
+				}
+				// the instrumented handler's entries report their owner in four ways (vnode.own): the structured attributes carry what was reported
+				if s.v != nil {
+					s.v.mu.Lock()
+					if vn := s.v.nodes["/d/"+n.Name]; vn != nil {
+						u, g, has := vn.wireOwner()
+						if has != (n.A.Flags&2 != 0) || (has && (n.A.UID != u || n.A.GID != g)) {
+							ownerok = false
+						}
+					}
+					s.v.mu.Unlock()
+				}
+				tr.emit("LongName", kv{"server": kind, "name": hexs([]byte(n.Name)), "w": int(n.A.Perm & 0xffff), "str": str, "sizeok": sizeok, "nameok": nameok, "ownerok": ownerok, "long": n.Long, "uid": int(n.A.UID), "gid": int(n.A.GID)})
 			}
 		}
 		s.endEOF()
